@@ -422,6 +422,27 @@ def run_api(ctx, binp, cases, name="api", workers=8, timeout=3000, race_log=None
     return outs
 
 
+def run_api_isolated(ctx, binp, cases, name="iso", procs=8, timeout=600):
+    """every case in a driver process of its own (a case that hangs leaves goroutines, timers and held mutexes behind: the stack
+    dump of a stalled step then shows that case only)"""
+    import concurrent.futures
+    outs = {}
+
+    def one(c):
+        return run_api(ctx, binp, [c], name="%s.%s" % (name, c["id"]), workers=1, timeout=timeout)
+
+    with concurrent.futures.ThreadPoolExecutor(max_workers=procs) as ex:
+        for o in ex.map(one, cases):
+            outs.update(o)
+    for f in os.listdir(ctx.work):
+        if f.startswith(name + ".") and (f.endswith(".cases.jsonl") or f.endswith(".out.jsonl")):
+            try:
+                os.remove(os.path.join(ctx.work, f))
+            except OSError:
+                pass
+    return outs
+
+
 # ---- views (what encoding/json makes of a body) ---------------------------------------------------
 def get_views(ctx, binp, bodies):
     """bodies: iterable of bytes -> {bytes: view dict} computed by Go's encoding/json."""
